@@ -394,7 +394,7 @@ async fn history(ctx: &mut Ctx, _case: u64, rng: &mut Rng, w: &mut World, ns_sec
         }
     }
     let max_events = if ctx.is_quick() { 14 } else { 24 };
-    let mut dial_budget = rng.range(1, 6);
+    let mut dial_budget = rng.range(1, if ctx.is_quick() { 6 } else { 8 });
     let mut events = 0;
     loop {
         w.step += 1;
